@@ -310,12 +310,30 @@ pub fn c16_check_one(
         Imp::LowDfa => (cfg.sk.covers(false), cfg.sk.covers(true)),
         _ => (true, true),
     };
-    let r = guard(|| match &s {
-        S::N(a) => invariant_walk(a, expect),
-        S::C(a) => invariant_walk(a, expect),
-        S::D(a) => invariant_walk(a, expect),
-        S::Top(_) => unreachable!(),
+    // Half of the walks go through the blanket `impl Automaton for &A`.
+    let via_ref = pats.len() % 2 == 1;
+    let r = guard(|| match (&s, via_ref) {
+        (S::N(a), false) => invariant_walk(a, expect),
+        (S::C(a), false) => invariant_walk(a, expect),
+        (S::D(a), false) => invariant_walk(a, expect),
+        (S::N(a), true) => invariant_walk(&a, expect),
+        (S::C(a), true) => invariant_walk(&a, expect),
+        (S::D(a), true) => invariant_walk(&a, expect),
+        (S::Top(_), _) => unreachable!(),
     });
+    if via_ref {
+        rep.tally("walks_through_reference_impl");
+        // metadata accessors through the reference impl must agree
+        let same = match &s {
+            S::N(a) => { let r = &a; (r.patterns_len(), r.min_pattern_len(), r.max_pattern_len()) == (a.patterns_len(), a.min_pattern_len(), a.max_pattern_len()) && r.memory_usage() == a.memory_usage() }
+            S::C(a) => { let r = &a; (r.patterns_len(), r.min_pattern_len(), r.max_pattern_len()) == (a.patterns_len(), a.min_pattern_len(), a.max_pattern_len()) && r.memory_usage() == a.memory_usage() }
+            S::D(a) => { let r = &a; (r.patterns_len(), r.min_pattern_len(), r.max_pattern_len()) == (a.patterns_len(), a.min_pattern_len(), a.max_pattern_len()) && r.memory_usage() == a.memory_usage() }
+            S::Top(_) => true,
+        };
+        if !same {
+            rep.violation(&format!("walk:{}:reference_impl_metadata", cfg.imp.name()), "metadata through `&A` differs from `A`".into(), walk_case_json(pats, cfg, "walk"));
+        }
+    }
     rep.eval();
     let mut h = Fnv::new();
     for p in pats {
